@@ -240,13 +240,19 @@ fn weakenings(p: &str, flags: &Flags) -> Vec<String> {
         return v;
     }
     // delete an anchor
+    // (only when the remaining text does not itself begin / end with '|': that character would be
+    // re-read as an anchor, e.g. "b||" minus its end anchor is the literal "b|", not "b" + anchor)
     if let Some(r) = p.strip_prefix("||") {
-        v.push(r.to_string()); // ||HOST -> HOST
+        if !r.starts_with('|') {
+            v.push(r.to_string()); // ||HOST -> HOST
+        }
     } else if let Some(r) = p.strip_prefix('|') {
-        v.push(r.to_string());
+        if !r.starts_with('|') {
+            v.push(r.to_string());
+        }
     }
     if let Some(r) = p.strip_suffix('|') {
-        if !r.is_empty() && r != "|" && r != "||" {
+        if !r.is_empty() && r != "|" && r != "||" && !r.ends_with('|') {
             v.push(r.to_string());
         }
     }
@@ -420,6 +426,105 @@ fn decode_regex(t: &mut Tape) -> ReCase {
 
 // ---- random patterns --------------------------------------------------------------------------
 
+/// 2-5 patterns cut from ONE URL pool (so they share tokens and usually one bucket) loaded together
+/// into an optimising engine: the engine blocks a URL iff the reference says some pattern matches
+#[derive(Clone, Debug, Serialize, Deserialize)]
+pub struct FamCase {
+    pub patterns: Vec<String>,
+    pub urls: Vec<String>,
+}
+
+impl Case for FamCase {
+    fn smaller(&self) -> Vec<Self> {
+        let mut v = vec![];
+        if self.urls.len() > 1 {
+            for u in &self.urls {
+                v.push(FamCase { patterns: self.patterns.clone(), urls: vec![u.clone()] });
+            }
+        }
+        if self.patterns.len() > 1 {
+            for i in 0..self.patterns.len() {
+                let mut c = self.clone();
+                c.patterns.remove(i);
+                v.push(c);
+            }
+        }
+        v
+    }
+}
+
+fn check_family_with(c: &FamCase, obs: &mut Obs, flags: &Flags) -> Result<(), String> {
+    let mut asts = vec![];
+    for p in &c.patterns {
+        if parse_rule(p).is_none() {
+            obs.exclude("pattern rejected by the parser");
+            return Ok(());
+        }
+        if strict_excluded(p, flags).is_some() {
+            obs.exclude("family with a degenerate pattern / known-finding shape");
+            return Ok(());
+        }
+        asts.push(pat::parse(p));
+    }
+    let engine = build_engine(&c.patterns, false, true, &[]);
+    let plain = build_engine(&c.patterns, false, false, &[]);
+    for u in &c.urls {
+        let Some((host, hstart)) = host_of(u) else {
+            obs.exclude("url outside the domain (host not lower-case ascii / empty path)");
+            continue;
+        };
+        if super::c01::approx_tokens(u) >= 120 {
+            continue;
+        }
+        let Ok(req) = Request::new(u, SOURCE, "script") else { continue };
+        obs.inner_evals += 1;
+        let each: Vec<bool> = asts.iter().map(|a| pat::matches(a, u, &host, hstart)).collect();
+        let want = each.iter().any(|b| *b);
+        if want {
+            obs.nontrivial = true;
+        }
+        for (e, how) in [(&engine, "optimising"), (&plain, "non-optimising")] {
+            let got = e.check_network_request(&req).matched;
+            if got != want {
+                return Err(format!(
+                    "REPLAY_CASE:{}\npatterns {:?} on {:?}: reference says {:?} per pattern, the {} engine holding all of them says matched={}",
+                    serde_json::to_string(&FamCase { patterns: c.patterns.clone(), urls: vec![u.clone()] }).unwrap(),
+                    c.patterns, u, each, how, got
+                ));
+            }
+        }
+    }
+    Ok(())
+}
+
+fn decode_family(t: &mut Tape) -> FamCase {
+    let first = decode_random(t);
+    // the pool is the first part of the url list
+    let pool: Vec<String> = first.urls.iter().take(first.urls.len().saturating_sub(4)).cloned().collect();
+    let cfg = OptCfg { allow_tag: false, allow_badfilter: false, allow_modifiers: false, allow_generichide: false, allow_unsupported_tag_combos: false };
+    let mut patterns = vec![first.pattern.clone()];
+    for _ in 0..(1 + t.pick(4)) {
+        let mut line = if t.chance(1, 3) {
+            // a sibling of the first pattern: same text with another anchor / tail
+            let b = first.pattern.trim_start_matches('|').trim_end_matches('|').to_string();
+            match t.pick(5) {
+                0 => format!("|{}", b),
+                1 => format!("{}|", b),
+                2 => format!("{}^", b),
+                3 => format!("{}*x|", b),
+                _ => format!("|{}*{}", b, gen::word(t)),
+            }
+        } else {
+            gen::net_rule(t, &pool, &[], &cfg)
+        };
+        if let Some(i) = line.rfind('$') {
+            line.truncate(i);
+        }
+        patterns.push(line.trim_start_matches("@@").to_string());
+    }
+    FamCase { patterns, urls: first.urls }
+}
+
 fn decode_random(t: &mut Tape) -> PatCase {
     let mut pool = vec![];
     for _ in 0..(1 + t.pick(3)) {
@@ -508,7 +613,7 @@ fn probe_scheme_mask() -> Result<(), String> {
 }
 
 pub fn check(ctx: &mut Ctx) {
-    ctx.rule = "exhaustive: every pattern over {a b . / * ^} up to length 4 (quick) / 6 (thorough) x anchors {none, |, ||, ..|, |..|, ||..|} x a universe of ~180 URLs over the same alphabet (hosts with repeated/overlapping labels, ports, https/ws); random: patterns cut from generated URLs (hosts in which the anchor text occurs several times), ^/* sprinkled, x pool URLs and one-edit perturbations; regex: /re/ rules from a small regex grammar vs the regex crate; long: URLs of 20-300 path segments (mixed case towards the end) with patterns of 1-150 segments joined by '/', '^' or '*' cut from their tail, or literal runs of 200-1700 characters. Strict comparison with the backtracking reference for non-degenerate patterns (both NetworkFilter::matches and a single-rule engine); weakening relations (drop anchor, char->*, append *, ||HOST->HOST) on all patterns. Non-trivial = the reference says the pattern matches the URL.".into();
+    ctx.rule = "exhaustive: every pattern over {a b . / * ^} up to length 4 (quick) / 6 (thorough) x anchors {none, |, ||, ..|, |..|, ||..|} x a universe of ~180 URLs over the same alphabet (hosts with repeated/overlapping labels, ports, https/ws); random: patterns cut from generated URLs (hosts in which the anchor text occurs several times), ^/* sprinkled, x pool URLs and one-edit perturbations; regex: /re/ rules from a small regex grammar vs the regex crate; long: URLs of 20-300 path segments (mixed case towards the end) with patterns of 1-150 segments joined by '/', '^' or '*' cut from their tail, or literal runs of 200-1700 characters; family: 2-5 patterns cut from one URL pool (1 in 3 a re-anchored sibling of the first) loaded together into an optimising and a non-optimising engine, which must block a URL iff the reference says some pattern matches it. Strict comparison with the backtracking reference for non-degenerate patterns (both NetworkFilter::matches and a single-rule engine); weakening relations (drop anchor, char->*, append *, ||HOST->HOST) on all patterns. Non-trivial = the reference says the pattern matches the URL.".into();
     ctx.assumptions = vec![
         "domain as stated by C02 plus: empty ||HOST and ||www.… hosts are not compared strictly (the parser strips www. by design)".into(),
         "requests are third-party script requests so that default options never restrict".into(),
@@ -529,6 +634,8 @@ pub fn check(ctx: &mut Ctx) {
     drive(ctx, "regex", n, 200, &decode_regex, &check_regex);
     let n = ctx.tier.pick(6_000, 120_000);
     drive(ctx, "long", n, 700, &decode_long, &check_pat);
+    let n = ctx.tier.pick(60_000, 1_000_000);
+    drive(ctx, "family", n, 400, &decode_family, &move |c: &FamCase, o: &mut Obs| check_family_with(c, o, &fl(f_hr, f_sm)));
 }
 
 pub fn replay(ctx: &mut Ctx, v: &Value) {
@@ -536,6 +643,7 @@ pub fn replay(ctx: &mut Ctx, v: &Value) {
     let f_sm = ctx.is_open("C02-scheme-pattern-mask");
     match v.get("check").and_then(|c| c.as_str()) {
         Some("regex") => replay_file::<ReCase>(ctx, v, &check_regex),
+        Some("family") => replay_file::<FamCase>(ctx, v, &move |c: &FamCase, o: &mut Obs| check_family_with(c, o, &fl(f_hr, f_sm))),
         _ => replay_file::<PatCase>(ctx, v, &move |c: &PatCase, o: &mut Obs| check_pat_with(c, o, &fl(f_hr, f_sm))),
     }
 }
